@@ -7,7 +7,7 @@ from ..core import rule, ob, explain, Ob
 from ..ev import PyRaise
 from ..interp import Interp, make_callable, FuncVal
 from ..src import Unknown
-from .common import C, levels, micro_versions, modes, table_ob, need, single
+from .common import value_at_exit, C, levels, micro_versions, modes, table_ob, need, single
 from .models import BufModel, SegModel, SegmentsModel, encoder_env
 from . import p04, wrappers
 
@@ -200,12 +200,18 @@ def r2(fx):
         yield ob(f'{mode}: group -> (value, width) over {n} group values', bad is None, loop,
                  got=f'group {bad[0]}: {bad[1]}' if bad else 'ISO formula', want=f'{bad[2]}' if bad else 'ISO formula')
     # char_count: bytes for numeric/alnum/byte, pairs for kanji/hanzi
-    cc = single([s for s in fn.body if isinstance(s, ast.Assign) and ast.unparse(s.targets[0]) == 'char_count'], 'char_count')
+    # the character count handed to the segment constructor, as the statements of make_segment that define it compute it
+    rets = [c for c in src.calls_in(fn, '_Segment', into_nested=False) if src.call_name(c) == '_Segment']
+    seg_call = single(rets, '_Segment(...) construction in make_segment')
+    cc = src.kwargs_of(seg_call).get('char_count') or (seg_call.args[1] if len(seg_call.args) > 1 else None)
+    need(cc is not None, 'char_count argument of _Segment')
     md = modes(fx)
-    okc = all(ev.ev(cc.value, dict(genv, segment_mode=md[m], segment_length=10)) == (5 if m in ('kanji', 'hanzi') else 10)
-              for m in ('numeric', 'alphanumeric', 'byte', 'kanji', 'hanzi'))
-    yield ob('char_count = bytes (numeric, alphanumeric, byte) / byte pairs (kanji, hanzi)', okc, cc, got=ast.unparse(cc.value),
-             want='segment_length or segment_length // 2')
+    vals = {}
+    for m in ('numeric', 'alphanumeric', 'byte', 'kanji', 'hanzi'):
+        vals[m] = value_at_exit(it, fn, cc, dict(genv, segment_mode=md[m], segment_length=10), ('segment_mode', 'segment_length'))
+    okc = all(vals[m] == (5 if m in ('kanji', 'hanzi') else 10) for m in vals)
+    yield ob('char_count = bytes (numeric, alphanumeric, byte) / byte pairs (kanji, hanzi)', okc, cc, got=vals,
+             want='10 bytes -> 10, 10, 10, 5, 5')
     # Buffer.append_bits MSB first, toints groups 8 MSB first
     ab = fx.fn('encoder', 'Buffer.append_bits')
     st = single([s for s in ab.body if isinstance(s, ast.Expr)], 'statement of Buffer.append_bits')
